@@ -204,6 +204,12 @@ func (d *Device) Set(ctx context.Context, r *gnmi.SetRequest) (resp *gnmi.SetRes
 			delete(d.Faults, n)
 			f, has = DevFault{Kind: "code", Code: c}, true
 			d.k.Probe("dev-refusal-repeated")
+		} else if has && f.Kind == "code" && strings.HasPrefix(rec.Task, "rec/configuration") && f.Code != codes.Unavailable && f.Code != codes.Canceled && f.Code != codes.DeadlineExceeded {
+			// definite refusals are injected for the changes of transactions; a push of a re-synchronisation only repeats
+			// what the device accepted before (refusing it for ever would keep the target from ever synchronising)
+			delete(d.Faults, n)
+			has = false
+			d.k.Probe("dev-refusal-skipped-resync-push")
 		} else if has && f.Kind == "code" && d.accepted[reqKey] && f.Code != codes.Unavailable && f.Code != codes.Canceled && f.Code != codes.DeadlineExceeded {
 			// ... and a request it has accepted before (sent again because the controller could not record the answer)
 			// is not refused now
